@@ -20,11 +20,18 @@ for pid in props:
     if pid not in claimed and pid not in listed:
         na.append({'property_id': pid, 'reason': 'check not built yet (work in progress; the technique applies, see DESIGN.md §8)'})
 head['not_applicable'] = sorted(na, key=lambda e: e['property_id'])
-json.dump(head, open(os.path.join(here, 'MANIFEST.json'), 'w'), indent=1)
+def _atomic(path, obj):
+    tmp = path + '.tmp.%d' % os.getpid()
+    with open(tmp, 'w') as f:
+        json.dump(obj, f, indent=1)
+    os.replace(tmp, path)
+
+
+_atomic(os.path.join(here, 'MANIFEST.json'), head)
 # known findings: merge known_findings.d/*.json (committed; never written at run time)
 kf = []
 for p in sorted(glob.glob(os.path.join(here, 'known_findings.d', '*.json'))):
     kf.extend(json.load(open(p))['findings'])
-json.dump({'findings': kf}, open(os.path.join(here, 'known_findings.json'), 'w'), indent=1)
+_atomic(os.path.join(here, 'known_findings.json'), {'findings': kf})
 head['hooks']['source_commits'] = head['hooks'].get('source_commits', [])
 print('claimed:', sorted(claimed), ' known findings:', len([k for k in kf if k.get('status') == 'open']), 'open,', len([k for k in kf if k.get('status') == 'fixed']), 'fixed')
